@@ -6,7 +6,7 @@ import json, os, shutil, subprocess, sys, tempfile
 from concurrent.futures import ThreadPoolExecutor
 
 HERE = os.path.dirname(os.path.dirname(os.path.abspath(__file__)))
-ENV = dict(os.environ, GOFLAGS="-mod=mod", GOPROXY="off")
+ENV = dict(os.environ, GOFLAGS="-mod=mod -trimpath", GOPROXY="off")
 for k in ("GOWORK", "GOSUMDB", "GOTOOLCHAIN"):
     ENV.pop(k, None)
 
